@@ -1284,7 +1284,41 @@ def rule_data(ctx: Ctx) -> RuleReport:
         else:
             why = " and ".join(f"{anorm(t, hd.node)} is {l}" for t, l in bad[-2:]) or "unconditionally"
             rep.fail(Finding("C02-DATA", cls.module.rel, hd.qual, "data dropped when " + why, f"handle_data returns without storing its text when {' and '.join(short(t, 40) + ' is ' + l for t, l in bad[-2:]) or 'always'} although no removed element is open: that piece of body text is missing (white space between two inline elements glues 'Ada' and 'Lovelace' together)", line=hd.node.lineno))
+    tail_clauses(ctx, rep, "C02-DATA")
     return rep
+
+
+def tail_clauses(ctx: Ctx, rep: RuleReport, rule: str) -> None:
+    """The tail of an element (the character data behind its end tag) sits between inline neighbours: a tail that is only a blank is the
+    blank between two words ('<span>Net</span> <span>revenue</span>'). Whoever emits tails emits every non-empty one: the guard is the
+    truthiness of the tail, never a test of what it contains."""
+    n = 0
+    for m in ctx.p.modules.values():
+        if "/tests/" in m.rel or not m.rel.startswith(X):
+            continue
+        for fi in m.functions.values():
+            tails = {a.targets[0].id for a in walk_own(fi.node) if isinstance(a, ast.Assign) and len(a.targets) == 1 and isinstance(a.targets[0], ast.Name) and isinstance(a.value, ast.Attribute) and a.value.attr == "tail"}
+
+            def is_tail(e):
+                return (isinstance(e, ast.Attribute) and e.attr == "tail") or (isinstance(e, ast.Name) and e.id in tails) or \
+                    (isinstance(e, ast.Subscript) and isinstance(e.slice, ast.Constant) and e.slice.value == "tail") or \
+                    (isinstance(e, ast.Call) and isinstance(e.func, ast.Attribute) and e.func.attr == "get" and e.args and isinstance(e.args[0], ast.Constant) and e.args[0].value == "tail")
+
+            for i in [x for x in walk_own(fi.node) if isinstance(x, ast.If)]:
+                emits = any((isinstance(c, ast.Call) and isinstance(c.func, ast.Attribute) and c.func.attr in ("append", "extend", "write") and c.args and is_tail(c.args[0])) or
+                            (isinstance(c, ast.AugAssign) and is_tail(c.value)) for st in i.body for c in ast.walk(st))
+                if not emits:
+                    continue
+                n += 1
+                rep.unit(fi.key)
+                content_tests = [c for c in ast.walk(i.test) if isinstance(c, ast.Call) and isinstance(c.func, ast.Attribute) and is_tail(c.func.value) and c.func.attr != "get"]
+                content_tests += [c for c in ast.walk(i.test) if isinstance(c, ast.Compare) and any(is_tail(x) for x in [c.left] + c.comparators) and not all(isinstance(o, (ast.Is, ast.IsNot)) for o in c.ops)]
+                if content_tests:
+                    rep.fail(Finding(rule, m.rel, fi.qual, "tail emitted only when " + anorm(i.test, fi.node), f"`{short(i.test, 60)}` decides by the content of the tail whether it is emitted: a tail that is a single blank -- the blank between two inline elements -- is dropped and the words on its two sides are glued ('Net revenue' -> 'Netrevenue')", line=i.lineno))
+                else:
+                    rep.ok({"tail": f"{fi.qual}: emitted when `{short(i.test, 40)}`"})
+    if n < 3:
+        raise AnalysisError(f"{rule}: only {n} places that emit element tails found (3 confirmed)")
 
 
 def rule_once(ctx: Ctx) -> RuleReport:
